@@ -188,6 +188,11 @@ type Guarded struct {
 
 func (g *Guarded) Status(ctx context.Context) (int, error) { zooHit(g.ID, "Status"); return 5, nil }
 
+// methods whose single result is not an error, and methods without results: callable like any other
+func (g *Guarded) Count(ctx context.Context) int64 { zooHit(g.ID, "Count"); return 5 }
+func (g *Guarded) Label(ctx context.Context) string { zooHit(g.ID, "Label"); return "guarded" }
+func (g *Guarded) Touch(ctx context.Context)        { zooHit(g.ID, "Touch") }
+
 // Expected: path -> "instance.method/argc" (argc = parameters without the context)
 type ZooRoot struct {
 	Name     string
@@ -269,7 +274,7 @@ func ZooRoots() []ZooRoot {
 		{Name: "shadow-root", Value: &Shadow{ID: "shadow", Sub: ShadowSub{ID: "shadow.sub"}}, Callable: map[string]string{
 			"CallClosure": "shadow.CallClosure/2", "Get": "shadow.Get/0", "Sub.CallClosure": "shadow.sub.CallClosure/1"}},
 		{Name: "guarded-root", Value: &Guarded{ID: "guarded", audit: &auditImpl{ID: "audit", Journal: journal{ID: "journal"}}, Pub: &auditImpl{ID: "pubaudit", Journal: journal{ID: "pubjournal"}}},
-			Callable: map[string]string{"Status": "guarded.Status/0", "Pub.Note": "pubaudit.Note/0"},
+			Callable: map[string]string{"Status": "guarded.Status/0", "Pub.Note": "pubaudit.Note/0", "Count": "guarded.Count/0", "Label": "guarded.Label/0", "Touch": "guarded.Touch/0"},
 			Extra: []string{"audit.Note", "audit.Journal.Flush", "audit.Journal", "Pub.Journal.Flush", "Mutex.Lock", "Lock", "Unlock", "TryLock", "Mutex.Unlock",
 				"audit.Journal.Flush.X", "Pub.Journal.ID"}},
 	}
